@@ -4,6 +4,7 @@
    conversions, and gmp_sscanf of everything printed. */
 #define _GNU_SOURCE
 #include "util.h"
+#include <ctype.h>
 static void in_z(const char *k, mpz_srcptr z) { char *h = hex_of_limbs(PTR(z), ABSIZ(z), SIZ(z) < 0); fn_in_str(k, h); free(h); }
 static void out_z(const char *k, mpz_srcptr z) { char *h = hex_of_limbs(PTR(z), ABSIZ(z), SIZ(z) < 0); fn_out_str(k, h); free(h); }
 /* width / precision codes (PrintfLayout.tla): -1 none, n literal, 1000+n '*' with argument n, 2000+n '*' with argument -n, precision 3000 a bare '.' */
@@ -146,6 +147,27 @@ void drv_c18_misc(int tier, unsigned long seed, const char *extra) {
       for (j = 0; j < 5; j++) { fn_begin("gmp_printf_hp"); fn_in_str("fmt", bf[j]); fn_mid(); priv_begin(); ret = gmp_asprintf(&ap, bf[j], hp); priv_end();
         fn_out_int("ret", ret); fn_out_int("len", ap ? (long)strlen(ap) : -1); fn_end(); priv_begin(); if (ap) (*freef)(ap, strlen(ap) + 1); ap = NULL; priv_end(); }
       priv_begin(); mpf_clear(hp); priv_end(); }
+    /* a standard %c conversion given the NUL character in front of a %Z conversion: every member of the family emits the byte and counts it
+       ("standard conversions mixed into the format are unaffected"); bytes are logged in hex */
+    if (x % 10 == 4) { int fam; char *hx2 = NULL; static const char *fn5[] = {"gmp_sprintf", "gmp_snprintf", "gmp_asprintf", "gmp_fprintf", "gmp_obstack_printf"};
+      for (fam = 0; fam < 5; fam++) { char ob[600]; int r = -9; size_t n = 0; memset(ob, 0x55, sizeof ob);
+        if (ABSIZ(v) > 4) break;
+        fn_begin("gmp_printf_nul"); fn_in_str("fam", fn5[fam]); in_z("v", v); fn_mid(); priv_begin();
+        if (fam == 0) { r = gmp_sprintf(ob, "%c%Zd|", 0, v); n = r > 0 ? (size_t)r + 1 : 0; }
+        else if (fam == 1) { r = gmp_snprintf(ob, sizeof ob, "%c%Zd|", 0, v); n = r > 0 ? (size_t)r + 1 : 0; }
+        else if (fam == 2) { char *ap = NULL; void (*freef)(void *, size_t); mp_get_memory_functions(NULL, NULL, &freef); r = gmp_asprintf(&ap, "%c%Zd|", 0, v); n = r > 0 ? (size_t)r + 1 : 0; if (ap) { memcpy(ob, ap, n); (*freef)(ap, n); } }
+        else if (fam == 3) { char *mb = NULL; size_t ml = 0; FILE *ms = open_memstream(&mb, &ml); r = gmp_fprintf(ms, "%c%Zd|", 0, v); fclose(ms); n = ml; memcpy(ob, mb, ml < sizeof ob ? ml : 0); free(mb); }
+        else { struct obstack obs; obstack_init(&obs); r = gmp_obstack_printf(&obs, "%c%Zd|", 0, v); n = obstack_object_size(&obs); memcpy(ob, obstack_base(&obs), n < sizeof ob ? n : 0); obstack_free(&obs, NULL); }
+        priv_end();
+        { size_t k; hx2 = malloc(2 * n + 1); for (k = 0; k < n; k++) sprintf(hx2 + 2 * k, "%02x", (unsigned char)ob[k]); hx2[2 * n] = 0; }
+        fn_out_int("ret", r); fn_out_str("hex", hx2); fn_end(); free(hx2); } }
+    /* a literal byte of the format above 0x7f (scanf matches ordinary characters of the format exactly: C99 7.19.6.2p6) */
+    if (x % 10 == 6) { int b; for (b = 0x21; b < 0x100; b += (b < 0x7f ? 13 : 1)) { char in[64], fm[8]; int r;
+        if (b == '%' || isspace(b) || isdigit(b) || b == '-' || b == '+') continue;
+        priv_begin(); mpz_set_si(w, (long)rnd_below(100000) - 50000); priv_end();
+        gmp_snprintf(in, sizeof in, "%c%Zd", b, w); fm[0] = (char)b; strcpy(fm + 1, "%Zd");
+        fn_begin("gmp_sscanf_lit"); fn_in_int("byte", b); in_z("v", w); fn_mid(); priv_begin(); { mpz_t w3; FILE *fi; int r3; mpz_init(w3); r = gmp_sscanf(in, fm, w3);
+          fn_out_int("ret", r); out_z("v", w3); fi = fmemopen(in, strlen(in), "r"); mpz_set_ui(w3, 0); r3 = gmp_fscanf(fi, fm, w3); fclose(fi); fn_out_int("fret", r3); out_z("fv", w3); mpz_clear(w3); } priv_end(); fn_end(); } }
     /* scanf reads back what printf wrote */
     { int r;
       fn_begin("gmp_sscanf"); fn_in_str("text", expect); in_z("v", v); fn_in_int("nfields", 1); fn_mid();
